@@ -22,6 +22,7 @@ REPLAYS = VERIF / "replays"
 
 sys.path.insert(0, str(REPO / "src"))
 sys.setrecursionlimit(20000)
+sys.set_int_max_str_digits(0)
 
 import smoothmath as sm  # noqa: E402
 import smoothmath.expression as X  # noqa: E402
